@@ -347,8 +347,20 @@ Definition all_labels (a : archive) : list (N * bytes) :=
   concat (map (fun p => map (fun l => (fst p, l)) (snd p))
               (isort (fun x y : N * list bytes => fst x <=? fst y) (a_labels a))).
 
-(* find_label_address: the address of SOME bucket containing the label (hash order) *)
+(* find_label_address: the LOWEST address whose bucket contains the label (repaired code, fix 10408e9:
+   `.filter(bucket contains target).map(address).min()`), hence independent of the order of the map
+   (Proofs/FindLabel.v).  [label_hits]: the addresses whose bucket contains the label, in map order. *)
+Definition label_hits (a : archive) (target : bytes) : list N :=
+  map fst (filter (fun p : N * list bytes => existsb (bytes_eqb target) (snd p)) (a_labels a)).
+Fixpoint min_of (x : N) (l : list N) : N :=
+  match l with [] => x | y :: r => min_of (N.min x y) r end.
 Definition find_label_address (a : archive) (target : bytes) : option N :=
+  match label_hits a target with
+  | [] => None
+  | x :: r => Some (min_of x r)
+  end.
+(* the code before the repair: the first hit in map (hash) order *)
+Definition find_label_address_first (a : archive) (target : bytes) : option N :=
   match find (fun p : N * list bytes => existsb (bytes_eqb target) (snd p)) (a_labels a) with
   | Some p => Some (fst p)
   | None => None
